@@ -7,7 +7,10 @@ def spec(th, seed):
     units = [U('C07_half.plain', 'mon/C07_half.cpp', 'plain', defs=F16C),
              # SIMD configuration at an ISA level that has hardware half conversion (a glm fast path there must still keep NaN codes, ties, ...)
              U('C07_half.simd-avx-f16c', 'mon/C07_half.cpp', 'plain', defs=F16C + ['-DGLM_FORCE_INTRINSICS', '-mavx2', '-mfma'], args=['--x-stride', '7'])]
+    # C++20 translation unit (glm selects language-level dependent code from __cplusplus)
+    units.append(U('C07_half.cxx20', 'mon/C07_half.cpp', 'plain', defs=F16C + ['-std=c++20'], args=['--x-stride', '5']))
     if th:
+        units.append(U('C07_half.clang.cxx20', 'mon/C07_half.cpp', 'clang', defs=F16C + ['-std=c++20'], args=['--x-stride', '5']))
         units.append(U('C07_half.clang', 'mon/C07_half.cpp', 'clang', defs=F16C))
         units.append(U('C07_half.O0', 'mon/C07_half.cpp', 'plainO0', defs=F16C, args=['--x-stride', '61']))
     return {
